@@ -324,6 +324,10 @@ theorem runOps_frame (sc : Scripts) (f : Nat) (w : World) (me : Nat) (ops : List
         apply hop
         · exact ⟨rfl, rfl, rfl, fun _ => rfl⟩
         · intro u e hm; simp at hm; subst hm; rfl
+      | exec =>
+        apply hop
+        · exact Frame.refl w
+        · intro u e hm; simp at hm; subst hm; rfl
 
 
 /-! ### get_user_command / process_user_command / the command loop -/
